@@ -771,6 +771,24 @@ def run_C19(ctx):
                       "case": {"kind": "fn", "fn": "get_trough_wells", "n": n, "wells": arr}, "oracle": msg, "sig": "C19:get_trough_wells",
                       "nontrivial": ok_n and n > 0})
     fn_stream(ctx, res, "get_trough_wells", cases, lambda a, b: a == b or (a.startswith("err") and b.startswith("err")))
+    # oracle-only: counts that are numpy integer scalars of every width (also close to the maximum of a narrow type) or
+    # Python bools.  Whether such an `n` is an "integer" is not settled by the statement, so the call may be refused —
+    # but if it is accepted it must return exactly n wells in cycling order (never fewer, never silently none).
+    for _ in range(ctx.n(80)):
+        L = rng.randint(1, 12)
+        ids = [G.wid(r, 0) for r in range(L)]
+        ty = rng.choice([np.int8, np.uint8, np.int16, np.uint16, np.int32, np.int64, bool])
+        top = 1 if ty is bool else min(int(np.iinfo(ty).max), 70000)      # (wide types: small counts only)
+        nv = min(top, rng.choice([top, max(0, top - rng.randint(0, L)), rng.randint(0, min(top, 300)), 0, L, 2 * L]))
+        n = ty(nv)
+        ans = guarded(lambda: "ok " + ",".join(str(x) for x in get_trough_wells(n, list(ids))))
+        want = "ok " + ",".join(ids[i % L] for i in range(int(nv)))
+        case = {"kind": "fn", "fn": "get_trough_wells_npint", "n": int(nv), "type": ty.__name__, "wells": L}
+        res.note_case(case, True)
+        res.dist["get_trough_wells:numpy-or-bool-count:" + ("err" if ans.startswith("err") else "ok")] += 1
+        if not ans.startswith("err") and ans != want:
+            res.viol.append(Finding("get_trough_wells", case, f"get_trough_wells({ty.__name__}({nv}), {L} wells) was accepted but returned "
+                                    f"{0 if ans == 'ok ' else len(ans[3:].split(','))} wells instead of {nv} in cycling order", "C19:numpy-count"))
     return res
 
 
@@ -830,11 +848,25 @@ def run_C18(ctx):
     fn_stream(ctx, res, "partition_by_column", cases, lambda a, b: a == b or (a.startswith("err") and b.startswith("err")))
     # optimize_partition_by
     cases = []
-    for st in (False, True):
-        for dt in (False, True):
+    import warnings as _w
+    def mk(name, kind):
+        # every way of declaring the two kinds of labware: Trough(...), the generic constructor with virtual_rows
+        # (also a trough: `is_trough`), multi-row plates, single-row strips and single-well plates (not troughs)
+        with _w.catch_warnings():
+            _w.simplefilter("ignore")
+            if kind == "Trough":
+                return impl.Trough(name, rng.choice([1, 2, 8]), rng.choice([1, 3]), min_volume=0, max_volume=10)
+            if kind == "Labware(virtual_rows)":
+                return impl.Labware(name, 1, rng.choice([1, 3]), min_volume=0, max_volume=10, virtual_rows=rng.choice([1, 4, 8]))
+            if kind == "plate":
+                return impl.Labware(name, rng.choice([2, 8]), rng.choice([1, 12]), min_volume=0, max_volume=10)
+            return impl.Labware(name, 1, rng.choice([1, 4]), min_volume=0, max_volume=10)      # strip / single well
+    kinds = [("Trough", True), ("Labware(virtual_rows)", True), ("plate", False), ("strip", False)]
+    for sk, st in kinds:
+        for dk, dt in kinds:
             for mode in ("auto", "source", "destination", "rows", "", "Auto"):
-                S = impl.Trough("S", 2, 1, min_volume=0, max_volume=10) if st else impl.Labware("S", 2, 1, min_volume=0, max_volume=10)
-                D = impl.Trough("D", 2, 1, min_volume=0, max_volume=10) if dt else impl.Labware("D", 2, 1, min_volume=0, max_volume=10)
+                S = mk("S", sk)
+                D = mk("D", dk)
                 ans = guarded(lambda: "ok " + optimize_partition_by(S, D, mode))
                 want = None
                 if mode == "auto":
@@ -843,9 +875,9 @@ def run_C18(ctx):
                     want = "ok " + mode
                 msg = None
                 if (want is not None and ans != want) or (want is None and not ans.startswith("err")):
-                    msg = f"optimize_partition_by(trough={st}, trough={dt}, {mode!r}) = {ans}"
+                    msg = f"optimize_partition_by(source={sk} (trough={st}), destination={dk} (trough={dt}), {mode!r}) = {ans}"
                 cases.append({"line": f"optimize {int(st)} {int(dt)} {proto.e_str(mode)}", "impl": ans,
-                              "case": {"kind": "fn", "fn": "optimize_partition_by", "src_trough": st, "dst_trough": dt, "mode": mode},
+                              "case": {"kind": "fn", "fn": "optimize_partition_by", "src": sk, "dst": dk, "src_trough": st, "dst_trough": dt, "mode": mode},
                               "oracle": msg, "sig": "C18:optimize_partition_by"})
     fn_stream(ctx, res, "optimize_partition_by", cases)
     res.exhaustive = False
@@ -856,7 +888,7 @@ register("C19", run_C19, module="Robotools.Props.C19",
          theorems=["Robotools.C19." + t for t in ("rejects_empty", "length_eq", "get_mod", "zero", "arr_colmajor")], rule="(n, wells) pairs: n in {0,1,len-1,len,len+1,k*len,random,negative,non-int}; wells as list, 1-D and 2-D arrays of length 1..26")
 register("C18", run_C18, module="Robotools.Props.C18",
          theorems=["Robotools.C18." + t for t in ("perm", "single_column", "groups_nonempty", "groups_sorted", "group_keys_complete",
-                                                  "rows_sorted", "auto_rule", "explicit_respected", "invalid_mode_rejected")], rule="triple lists of length 0..40 with repeated wells and equal keys, rows A..Z, columns 1..99, both modes and invalid modes; all 4x6 optimize_partition_by combinations")
+                                                  "rows_sorted", "auto_rule", "explicit_respected", "invalid_mode_rejected")], rule="triple lists of length 0..40 with repeated wells and equal keys, rows A..Z, columns 1..99, both modes and invalid modes; all optimize_partition_by combinations of 4 labware declarations (Trough, Labware(virtual_rows=..), plate, strip) x 6 modes")
 
 
 # ------------------------------------------------------------------ C10 tip masks
@@ -1238,10 +1270,19 @@ def run_C15(ctx):
                 msg = "four clockwise rotations are not the identity"
         cases.append({"line": f"rotator {R} {C} {direction} {A(wells)}", "impl": ans,
                       "case": {"kind": "fn", "fn": "rotator", "shape": [R, C], "dir": direction, "wells": wells}, "oracle": msg, "sig": "C15:rotator"})
+    prev = None
     for _ in range(ctx.n(250)):
         R, C = rng.randint(1, 16), rng.randint(1, 24)
         seed = rng.randint(0, 200)
         mode = rng.choice(["full", "row", "column"])
+        if prev is not None and rng.random() < 0.3:
+            # the same seed and mode as the previous randomizer of this process, on another geometry with the same
+            # number of wells (8x12 after 6x16, 3x2 after 2x3): nothing may be carried over between objects
+            pR, pC, seed, mode = prev
+            shapes = [(r, pR * pC // r) for r in range(1, 17) if (pR * pC) % r == 0 and pR * pC // r <= 24 and (r, pR * pC // r) != (pR, pC)]
+            if shapes:
+                R, C = rng.choice(shapes)
+        prev = (R, C, seed, mode)
         ids = [[G.wid(r, c) for c in range(C)] for r in range(R)]
         wells = pick_sub(rng, R, C, ids)
         direction = rng.choice(["rand", "derand"])
